@@ -14,6 +14,7 @@ import mirq
 from mirq import show, access_path, AnchorMissing, const_of, walk
 from rulekit import Table
 from rules import common as C
+from rules import vocab as V
 from rules import C01, C07
 
 TABLE = Table('C10')
@@ -142,6 +143,30 @@ def r2(cx, rec):
         rec.need((a or '').endswith('piece_length'), 'plan-arg', f, bb, 'planner is given %s' % a)
 
 
+def fresh_assignment(cx, rec):
+    """a new assignment always starts from a fresh assembly state: in the function that installs Some(<new state>), every
+    path from its entry to a request (or to its normal return) passes through that store, and the stored value is built from
+    the assignment's own request data"""
+    F = cx.F
+    S, rb = sender_fn(F)
+    spath = F.owner_fn(S).path
+    for nf in F.user_fns():
+        st = [(bi, nf.expr_rvalue(s['rv'])) for bi, si, s in nf.stores() if access_path(nf.expr_place(s['lhs'])) == 'self.' + V.rx_slot(F)
+              and nf.expr_rvalue(s['rv'])[0] == 'agg' and nf.expr_rvalue(s['rv'])[3] == 'Some']
+        if not st:
+            continue
+        sc = C.calls_to_fn(F, nf, spath)
+        ok, bad = C.must_pass(nf, [bi for bi, v in st], list(sc) + C.ok_exit_blocks(nf), start=0)
+        rec.site(nf, st[0][0], 'every path to a request / normal return installs the new state first: %s' % ok)
+        rec.need(ok, 'assignment-keeps-old-state/' + F.owner_fn(nf).path, nf, st[0][0],
+                 'a new piece assignment can proceed to its requests without replacing the assembly state: blocks and outstanding '
+                 'requests of the previous assignment survive (the buffer then mixes two pieces, or stale requests are never re-issued)')
+        for bi, v in st:
+            inner = v[4][0][1]
+            okv = inner[0] == 'call' and inner[1] in F.fns and any(C.is_param(nf, a) for a in inner[2])
+            rec.need(okv, 'assignment-state-source/' + F.owner_fn(nf).path, nf, bi, 'the installed state is %s, not built from the assignment\'s request data' % show(inner)[:80])
+
+
 @TABLE.rule('3', 'K1', 'accepted block: removed from outstanding by (begin && length) equality; then completion or a further request; '
             'a new assignment sends at least one request', floor=3)
 def r3(cx, rec):
@@ -177,15 +202,16 @@ def r3(cx, rec):
         rec.site(H, cb, 'after storing a block: completion or further request on every Ok path: %s' % (not bad))
         rec.need(not bad, 'no-progress-after-block', H, cb, 'an accepted block can be followed by neither the completion sequence nor a further request')
     # new assignment
-    news = [f for f in F.user_fns() if any(bi for bi, si, s in f.stores() if access_path(f.expr_place(s['lhs'])) == 'self.piece_rx'
+    news = [f for f in F.user_fns() if any(bi for bi, si, s in f.stores() if access_path(f.expr_place(s['lhs'])) == 'self.' + V.rx_slot(F)
                                             and f.expr_rvalue(s['rv'])[0] == 'agg' and f.expr_rvalue(s['rv'])[3] == 'Some')]
     for nf in news:
-        st = [bi for bi, si, s in nf.stores() if access_path(nf.expr_place(s['lhs'])) == 'self.piece_rx' and nf.expr_rvalue(s['rv'])[3:4] == ('Some',)]
+        st = [bi for bi, si, s in nf.stores() if access_path(nf.expr_place(s['lhs'])) == 'self.' + V.rx_slot(F) and nf.expr_rvalue(s['rv'])[3:4] == ('Some',)]
         sc = C.calls_to_fn(F, nf, spath)
         ok, bad = C.must_pass(nf, sc, C.ok_exit_blocks(nf), start=st[0])
         rec.site(nf, st[0], 'assignment installs the state and requests (%d request calls)' % len(sc))
         rec.need(bool(sc) and ok, 'assignment-without-request', nf, st[0], 'a new piece assignment does not send a request')
     rec.need(bool(news), 'no-assignment', H, None, 'no function installs a new assembly state')
+    fresh_assignment(cx, rec)
     # the assembly state is never cleared after a (re)assignment on the same path
     installers = {F.owner_fn(nf).path for nf in news}
     changed = True
@@ -201,9 +227,9 @@ def r3(cx, rec):
     for f in F.user_fns():
         if not f.path.startswith('peer_handler::'):
             continue
-        clears = [bi for bi, si, s in f.stores() if access_path(f.expr_place(s['lhs'])) == 'self.piece_rx'
+        clears = [bi for bi, si, s in f.stores() if access_path(f.expr_place(s['lhs'])) == 'self.' + V.rx_slot(F)
                   and f.expr_rvalue(s['rv'])[0] == 'agg' and f.expr_rvalue(s['rv'])[3] == 'None']
-        clears += [bb for bb in mirq.real_calls(f) if f.expr_call(bb)[4].get('name') == 'take' and access_path(f.expr_call(bb)[2][0]) == 'self.piece_rx']
+        clears += [bb for bb in mirq.real_calls(f) if f.expr_call(bb)[4].get('name') == 'take' and access_path(f.expr_call(bb)[2][0]) == 'self.' + V.rx_slot(F)]
         inst_calls = [b for b, t in C.local_calls(F, f) if t in installers]
         for cb in clears:
             after = [b for b in inst_calls if cb in f.reach_from(b) and b != cb]
